@@ -520,6 +520,7 @@ def _main_run(mod, a, seed):
         print("KNOWN-FINDING: property=%s %s" % (prop, known[sig]["what"]), flush=True)
     rep_dir = os.path.join(VERIF, "replays", prop)
     nshr = 0
+    unconfirmed = []
     for sig in sorted(new):
         i, case, v = new[sig]
         os.makedirs(rep_dir, exist_ok=True)
@@ -533,9 +534,17 @@ def _main_run(mod, a, seed):
             small = case
         res2 = safe_execute(mod, small)
         if not any(signature(prop, x) == sig for x in res2["violations"]):
-            small, res2 = case, safe_execute(mod, case)
-            if not any(signature(prop, x) == sig for x in res2["violations"]):
-                raise HarnessError("violation %s of case %d did not reproduce on re-execution" % (sig, i))
+            for _ in range(4):
+                small, res2 = case, safe_execute(mod, case)
+                if any(signature(prop, x) == sig for x in res2["violations"]):
+                    break
+            else:
+                # seen by a pool worker, not by the driver: behaviour that depends on the memory layout of the process
+                # (e.g. a table keyed by id() of temporaries).  Only violations that replay are reported as such; if none
+                # of this run's violations replays, the run ends as a harness error below.
+                unconfirmed.append((sig, i))
+                print("unconfirmed: %s of case %d did not reproduce on re-execution" % (sig, i), flush=True)
+                continue
         name = hashlib.sha256(sig.encode()).hexdigest()[:12] + ".json"
         path = os.path.join(rep_dir, name)
         with open(path, "w") as f:
@@ -546,6 +555,9 @@ def _main_run(mod, a, seed):
         print("violation: %s\n  detail: %s" % (sig, json.dumps(v["detail"], default=repr)[:1200]))
         print("VIOLATION property=%s replay=%s" % (prop, path), flush=True)
         exit_code = EXIT_VIOLATION
+
+    if unconfirmed and exit_code != EXIT_VIOLATION:
+        raise HarnessError("violation %s of case %d did not reproduce on re-execution" % unconfirmed[0])
 
     wall = time.monotonic() - t0
     cov = {
